@@ -119,12 +119,13 @@ fn random_case(s: &str) -> String {
 }
 
 pub async fn scenario() {
-	let entry = *rt::pick("entry", &[Entry::Tower, Entry::Tower, Entry::LowLevel]);
+	let entry = *rt::pick("entry", &[Entry::Tower, Entry::Default, Entry::LowLevel]);
 	let frag = if rt::chance("frag", 1, 2) { Frag { short: true, latency_ms: 3, cap: 0 } } else { Frag::default() };
 	// in some runs the request limit equals the size of the bodies that are sent (exactly at the limit is accepted,
 	// whatever the framing)
 	let exact_limit: Option<usize> = if rt::chance("exact_limit", 1, 5) { Some(150) } else { None };
 	let mut world = World::new(SrvCfg { entry, frag, max_req: exact_limit.map(|l| l as u32).unwrap_or(10 * 1024 * 1024), ..Default::default() });
+	world.start().await;
 	let n_reqs = rt::draw_range("n_reqs", 1, 4);
 	let over_stream = rt::chance("over_stream", 1, 3);
 	rt::event("plan", format!("entry={entry:?} frag={frag:?} reqs={n_reqs} over_stream={over_stream}"));
